@@ -26,9 +26,10 @@ concrete failing input through the correspondence and says `no-failing-input-fou
   * expressions: `self.resolved_type`, `self.<accessor>`, `self.container_types` (the class constant, a list display
     of named constants), local names, named constants (below), `True/False/None`, non-negative int literals,
     `not`, `and`, `or`, `a if c else b`, one-operator comparisons `is / is not / == / !=` with a named constant or
-    literal on at least one side, `in / not in` with a list/tuple display of named constants (or the class constant) on
+    literal on at least one side, `< <= > >=` (between ints), `in / not in` with a list/tuple display of named constants (or the class constant) on
     the right or with a named constant on the left and a runtime tuple on the right, `get_origin(e)`, `get_args(e)`,
-    `len(e)`, `e[<int literal>]`, `issubclass(e, enum.Enum)`, `hasattr(e, "__iter__")`, `bool(e)`,
+    `len(e)`, `e[<int literal>]`, `issubclass(e, enum.Enum)`, `issubclass(e, <named constant | display or class
+    constant of named constants>)`, `hasattr(e, "__iter__")`, `bool(e)`,
     `next(<genexp>[, default])`, `all(<genexp>)`, `any(<genexp>)` with one `for v in e` clause and `if` filters;
   * named constants must be bound the way the table `KNOWN` says (e.g. `Sequence` must be `collections.abc.Sequence`,
     `NoneType` must come from `types`; a builtin must not be rebound at module level); every global the accessors use
@@ -54,6 +55,22 @@ class TranslationError(Exception):
 # the accessors whose translation is compared with the model, in output order
 ACCESSORS = ["is_container", "container_type", "is_optional", "contained_type", "type_endpoint", "is_builtin_type",
              "is_type_type", "is_enum", "is_one_to_one_relationship", "is_one_to_many_relationship", "is_iterable"]
+
+# what each accessor must equal: the hand-written model (Model/ClassDiagram.lean) under the quirks of the code as it is now,
+# read as a Python value (Model/ClassDiagramPy.lean: ofBool / ofTri / ofContained / ofContainerType)
+MODEL = {
+    "is_container": "Py.ofBool (isContainer t)",
+    "container_type": "Py.ofContainerType t",
+    "is_optional": "Py.ofBool (isOptional .current t)",
+    "contained_type": "Py.ofContained (containedType .current t)",
+    "type_endpoint": "Except.ok (Val.obj (typeEndpoint .current t))",
+    "is_builtin_type": "Py.ofBool (isBuiltinType .current t)",
+    "is_type_type": "Py.ofBool (isTypeType t)",
+    "is_enum": "Py.ofTri (isEnum .current t)",
+    "is_one_to_one_relationship": "Py.ofBool (isOneToOne .current t)",
+    "is_one_to_many_relationship": "Py.ofBool (isOneToMany .current t)",
+    "is_iterable": "Py.ofBool (isIterable .current t)",
+}
 
 TYPING = ("typing", "typing_extensions")
 # (module, name) -> Lean constant
@@ -497,6 +514,10 @@ class Translator:
                 raise TranslationError(f"comparison without a named constant or literal: {ast.unparse(e)}")
             f = "Py.isNot" if isinstance(op, (ast.IsNot, ast.NotEq)) else "Py.is_"
             return self.seq(ctx, [l, r], env, lambda v: (PURE, f"({f} {v[0]} {v[1]})"))
+        ORD = {ast.Lt: "Py.lt", ast.LtE: "Py.le", ast.Gt: "Py.gt", ast.GtE: "Py.ge"}
+        if type(op) in ORD:
+            f = ORD[type(op)]
+            return self.seq(ctx, [l, r], env, lambda v: (MON, f"({f} {v[0]} {v[1]})"))
         raise TranslationError(f"unsupported comparison {ast.unparse(e)}")
 
     def call(self, ctx, e: ast.Call, env) -> Tuple[str, str]:
@@ -516,9 +537,16 @@ class Translator:
         if f == "bool" and n == 1:
             return self.seq(ctx, e.args, env, lambda v: (PURE, f"(Val.bool (Py.truthy {v[0]}))"))
         if f == "issubclass" and n == 2:
-            if self.g.resolve(e.args[1]) != ENUM_BASE:
-                raise TranslationError(f"issubclass against something else than enum.Enum: {ast.unparse(e)}")
-            return self.seq(ctx, e.args[:1], env, lambda v: (MON, f"(Py.issubclassEnum {v[0]})"))
+            if self.g.resolve(e.args[1]) == ENUM_BASE:
+                return self.seq(ctx, e.args[:1], env, lambda v: (MON, f"(Py.issubclassEnum {v[0]})"))
+            c = self.const_or_none(e.args[1], env)
+            if c is not None:
+                lst = f"[{c}]"
+            else:
+                kl, lst = self.expr(ctx, e.args[1], env)
+                if kl != LST:
+                    raise TranslationError(f"issubclass against something else than enum.Enum or named classes: {ast.unparse(e)}")
+            return self.seq(ctx, e.args[:1], env, lambda v: (MON, f"(Py.issubclassOf {v[0]} {lst})"))
         if f == "hasattr" and n == 2:
             a = e.args[1]
             if not (isinstance(a, ast.Constant) and a.value == "__iter__"):
@@ -559,6 +587,7 @@ class Translator:
 
 HEADER = """import KrroodVerif.Model.ClassDiagramPy
 import KrroodVerif.Props.C17
+import KrroodVerif.Lemmas.KernelRfl
 set_option linter.unusedVariables false
 /-! GENERATED by harness/translate/c17_translate.py from src/krrood/class_diagrams/wrapped_field.py — do not edit -/
 namespace KrroodVerif.CD.Translated
@@ -567,7 +596,7 @@ open KrroodVerif.CD.Py (Val M Exc ExcClass)
 """
 
 
-def translate(source: str) -> str:
+def translate(source: str, diagnostics: bool = False) -> str:
     tr = Translator(source)
     for a in ACCESSORS:
         tr.accessor(a)
@@ -576,13 +605,20 @@ def translate(source: str) -> str:
         out.append(f"/-- `WrappedField.{n}` -/\ndef {n} : List Val := {tr.const_defs[n]}\n")
     for n in tr.order:
         out.append(tr.done[n])
-    out.append(PROOFS)
+    eq = "".join(f"/-- the translated `{a}` is the model's, for every annotation -/\n"
+                 f"theorem C17_{a}_translated_eq_model (t : Ann) :\n    {a} (Py.rt t) = {MODEL[a]} := by c17_cases t\n\n"
+                 for a in ACCESSORS)
+    out.append(PROOFS.replace("@@EQ_MODEL@@\n", eq))
+    if diagnostics:
+        out.append("/-! ### Diagnostics (not part of any proof): probe annotations on which translation and model differ -/")
+        for a in ACCESSORS:
+            out.append(f'#eval IO.println (Py.diffReport "{a}" (fun t => {a} (Py.rt t)) (fun t => {MODEL[a]}))')
     out.append("end KrroodVerif.CD.Translated")
     return "\n".join(out) + "\n"
 
 
-def generate(repo: Path) -> str:
-    return translate((Path(repo) / "src/krrood/class_diagrams/wrapped_field.py").read_text())
+def generate(repo: Path, diagnostics: bool = False) -> str:
+    return translate((Path(repo) / "src/krrood/class_diagrams/wrapped_field.py").read_text(), diagnostics)
 
 
 THEOREM_NAMES = [f"KrroodVerif.CD.Translated.C17_{a}_translated_eq_model" for a in ACCESSORS] + [
@@ -594,52 +630,30 @@ PROOFS = r'''
 /-! ### Proof obligations (re-checked by the kernel against the definitions above on every run)
 
 `c17_cases t`: case analysis over the outer structure of the annotation — the accessors look at the origin and the
-arguments of `t` and at what kind of object the first non-None argument is, never deeper — closed by evaluation. -/
+arguments of `t` and at what kind of object the first non-None argument is, never deeper — closed by evaluation IN THE
+KERNEL (`kernel_rfl`, Lemmas/KernelRfl.lean: `Eq.refl` whose definitional-equality check is left to the kernel; a
+translated accessor that differs from the model on some annotation makes the kernel reject the theorem). -/
+macro "c17_ext" k:ident : tactic => `(tactic| (cases $k:ident <;> kernel_rfl))
+
+macro "c17_inner" x:ident : tactic => `(tactic|
+  (cases $x:ident with
+   | builtin b => cases b <;> kernel_rfl
+   | ext k i => c17_ext k
+   | _ => kernel_rfl))
+
 macro "c17_cases" t:ident : tactic => `(tactic|
   (cases $t:ident with
-   | builtin b => cases b <;> rfl
-   | cls i => rfl
-   | enum i => rfl
-   | fwd x => rfl
-   | union x y w => cases w <;> rfl
-   | optional st x => cases st <;> cases x <;> first | rfl | (rename_i b; cases b <;> rfl)
-   | container k x => cases k <;> cases x <;> first | rfl | (rename_i b; cases b <;> rfl)
-   | typeOf x => cases x <;> first | rfl | (rename_i b; cases b <;> rfl)))
+   | builtin b => cases b <;> kernel_rfl
+   | cls i => kernel_rfl
+   | enum i => kernel_rfl
+   | ext k i => c17_ext k
+   | fwd x => kernel_rfl
+   | union x y w => cases w <;> kernel_rfl
+   | optional st x => cases st <;> c17_inner x
+   | container k x => cases k <;> c17_inner x
+   | typeOf x => c17_inner x))
 
-theorem C17_is_container_translated_eq_model (t : Ann) :
-    is_container (Py.rt t) = Py.ofBool (isContainer t) := by c17_cases t
-
-theorem C17_container_type_translated_eq_model (t : Ann) :
-    container_type (Py.rt t) = Py.ofContainerType t := by c17_cases t
-
-theorem C17_is_optional_translated_eq_model (t : Ann) :
-    is_optional (Py.rt t) = Py.ofBool (isOptional .current t) := by c17_cases t
-
-theorem C17_contained_type_translated_eq_model (t : Ann) :
-    contained_type (Py.rt t) = Py.ofContained (containedType .current t) := by c17_cases t
-
-theorem C17_type_endpoint_translated_eq_model (t : Ann) :
-    type_endpoint (Py.rt t) = .ok (.obj (typeEndpoint .current t)) := by c17_cases t
-
-theorem C17_is_builtin_type_translated_eq_model (t : Ann) :
-    is_builtin_type (Py.rt t) = Py.ofBool (isBuiltinType .current t) := by c17_cases t
-
-theorem C17_is_type_type_translated_eq_model (t : Ann) :
-    is_type_type (Py.rt t) = Py.ofBool (isTypeType t) := by c17_cases t
-
-theorem C17_is_enum_translated_eq_model (t : Ann) :
-    is_enum (Py.rt t) = Py.ofTri (isEnum .current t) := by c17_cases t
-
-theorem C17_is_one_to_one_relationship_translated_eq_model (t : Ann) :
-    is_one_to_one_relationship (Py.rt t) = Py.ofBool (isOneToOne .current t) := by c17_cases t
-
-theorem C17_is_one_to_many_relationship_translated_eq_model (t : Ann) :
-    is_one_to_many_relationship (Py.rt t) = Py.ofBool (isOneToMany .current t) := by c17_cases t
-
-theorem C17_is_iterable_translated_eq_model (t : Ann) :
-    is_iterable (Py.rt t) = Py.ofBool (isIterable .current t) := by c17_cases t
-
-
+@@EQ_MODEL@@
 /-- the seven classifications the property names, read off the TRANSLATED accessors (`none` if one of them raises
 something the observation does not expect or returns a non-boolean) -/
 def flagsT (v : Val) : Option Flags :=
@@ -715,4 +729,5 @@ theorem C17_translated_consistent (t : Ann) :
 
 if __name__ == "__main__":
     import sys
-    print(generate(Path(sys.argv[1] if len(sys.argv) > 1 else "/repo")))
+    print(generate(Path(sys.argv[1] if len(sys.argv) > 1 and not sys.argv[1].startswith("--") else "/repo"),
+                   diagnostics="--diff" in sys.argv))
